@@ -285,7 +285,42 @@ func cfgPool(c *cfgCase, rng *vRand, cfg *pb.ApiConfig) {
 		return
 	}
 	// (c) fixed by the first update; (d) aliasing: mutate the caller's object now
-	variant := rng.Intn(4)
+	variant := rng.Intn(5)
+	if variant == 4 && cfg.GetChannelPool().GetBindPickStrategy() == pb.ChannelPoolConfig_ROUND_ROBIN {
+		// shut-down channels stay in the round-robin rotation; the statements are
+		// silent about that, so the emptied-pool variant is not combined with RR
+		variant = 0
+	}
+	if variant == 4 {
+		// the pool is emptied (every connection shut down, as at teardown), then a
+		// resolver update carrying a different config arrives: the pool is
+		// re-created, but the configuration stays the first one
+		for _, ch := range s.pool() {
+			s.report(ch.conn, connectivity.Shutdown)
+		}
+		other := cfgGen(rng)
+		if other.ChannelPool == nil {
+			other.ChannelPool = &pb.ChannelPoolConfig{}
+		}
+		other.ChannelPool.MaxSize = uint32(wantMax + 2)
+		other.ChannelPool.MaxConcurrentStreamsLowWatermark = uint32(wantWm + 3)
+		other.ChannelPool.MinSize = uint32(wantMin + 1)
+		other.Method = append(other.Method, &pb.MethodConfig{Name: []string{"/svc/extra"}, Affinity: &pb.AffinityConfig{Command: pb.AffinityConfig_BOUND, AffinityKey: "missing"}})
+		withCfg := rng.Intn(3) != 0
+		c.say("pool emptied, then a resolver update (config attached: %v) %v", withCfg, other)
+		s.resolve(false, other, withCfg)
+		c.out.hit("C17.update-on-emptied-pool")
+		if s.viol != nil || s.dead {
+			c.report("C17.update-failed", "emptied", "resolver update on the emptied pool failed: %v", s.viol)
+			return
+		}
+		if len(s.pool()) < 1 || len(s.pool()) > wantMax {
+			c.report("C17.fixed-by-first", "emptied-pool-size", "re-created pool has %d channels, first config allows 1..%d", len(s.pool()), wantMax)
+			return
+		}
+		// the rest of the observations (watermark, maxSize, method table) run on the re-created pool
+		wantMin = len(s.pool())
+	}
 	if variant == 1 || variant == 3 {
 		other := cfgGen(rng)
 		if other.ChannelPool == nil {
@@ -307,7 +342,7 @@ func cfgPool(c *cfgCase, rng *vRand, cfg *pb.ApiConfig) {
 			return
 		}
 	}
-	if variant >= 2 {
+	if variant == 2 || variant == 3 {
 		c.say("caller mutates its config object after the update")
 		if cfg.ChannelPool == nil {
 			cfg.ChannelPool = &pb.ChannelPoolConfig{}
